@@ -41,6 +41,7 @@ def jobs(tier, seed):
     for rom in ("low", "high"):
         out.append({"id": f"incbin/{rom}", "t": "incbin", "rom": rom})
         out.append({"id": f"incbin-scope/{rom}", "t": "incbin", "rom": rom, "scoped": True})
+        out.append({"id": f"incbin-file-changed/{rom}", "t": "incbin", "rom": rom, "twice": True})
     if tier == "thorough":
         out.append({"id": "mixed/1", "t": "mixed"})
     return out
@@ -84,6 +85,12 @@ def run(spec, cx):
         cx.assume(in_rom_window(spec["rom"], pt))
         # the whole output must stay inside the mapped ROM range
         cx.assume(rom_offset(spec["rom"], pt) + cx.t("n") + 16 < rom_range_end(spec["rom"], pt))
+        if spec.get("twice"):
+            # the same path held other bytes when it was assembled a moment ago (same process):
+            # the directive must emit the file's present bytes
+            m = cx.int("m", 0, 0xFF)
+            with virtual_files(cx, {"data.bin": cx.blob("older-content", m)}):
+                assemble("*= p\n.incbin 'data.bin'\n.dl data_bin__size\n", {"p": p}, rom=spec["rom"])
         with virtual_files(cx, {"data.bin": cx.blob("data.bin", n)}):
             if spec.get("scoped"):
                 src = "*= p\n{\n.incbin 'data.bin'\n.dl data_bin, data_bin__size\n}\nend:\n.dl end\n"
